@@ -40,6 +40,8 @@ pub struct T2 {
     pub conn: Conn,
     pub conn_flag: Arc<Flag>,
     pub conn_result: Option<String>,
+    /// Debug text of the error the connection future returned (carries GOAWAY debug data)
+    pub conn_err_debug: Option<String>,
     pub send_request: Option<client::SendRequest<Bytes>>,
     pub accepted: Vec<Accepted>,
     pub panics: Vec<String>,
@@ -106,6 +108,7 @@ impl T2 {
             conn: Conn::Gone,
             conn_flag,
             conn_result: None,
+            conn_err_debug: None,
             send_request: None,
             accepted: vec![],
             panics: vec![],
@@ -238,23 +241,31 @@ impl T2 {
         let calls_before = self.sh.lock().unwrap().transport_calls;
         let mut conn = std::mem::replace(&mut self.conn, Conn::Gone);
         let mut done: Option<String> = None;
+        let mut done_dbg: Option<String> = None;
         let mut new_accepts: Vec<(Request<RecvStream>, server::SendResponse<Bytes>)> = vec![];
         let accept_enabled = self.accept_enabled;
         let r = catch_unwind(AssertUnwindSafe(|| match &mut conn {
             Conn::Client(c) => match Pin::new(c).poll(&mut cx) {
                 Poll::Ready(Ok(())) => done = Some("ok".into()),
-                Poll::Ready(Err(e)) => done = Some(format!("err {}", err_text(&e))),
+                Poll::Ready(Err(e)) => {
+                    done_dbg = Some(format!("{:?}", e));
+                    done = Some(format!("err {}", err_text(&e)))
+                }
                 Poll::Pending => {}
             },
             Conn::Server(c) if !accept_enabled => match c.poll_closed(&mut cx) {
                 Poll::Ready(Ok(())) => done = Some("ok".into()),
-                Poll::Ready(Err(e)) => done = Some(format!("err {}", err_text(&e))),
+                Poll::Ready(Err(e)) => {
+                    done_dbg = Some(format!("{:?}", e));
+                    done = Some(format!("err {}", err_text(&e)))
+                }
                 Poll::Pending => {}
             },
             Conn::Server(c) => loop {
                 match c.poll_accept(&mut cx) {
                     Poll::Ready(Some(Ok(x))) => new_accepts.push(x),
                     Poll::Ready(Some(Err(e))) => {
+                        done_dbg = Some(format!("{:?}", e));
                         done = Some(format!("err {}", err_text(&e)));
                         break;
                     }
@@ -271,6 +282,7 @@ impl T2 {
             Ok(()) => {
                 if let Some(d) = done {
                     self.conn_result = Some(d);
+                    self.conn_err_debug = done_dbg.take();
                     // ordinary life cycle: a finished connection future is dropped
                     let dr = catch_unwind(AssertUnwindSafe(move || drop(conn)));
                     if let Err(p) = dr {
